@@ -384,7 +384,13 @@ def find_check_cache(context):
 @make.post_rules_hook
 def make_find_dirs(build_inputs, buildfile, env):
     if build_inputs['find_dirs']:
-        write_depfile(env, Path(depfile_name), make.filepath,
+        # If regeneration has multiple outputs, its recipe is attached to a
+        # stamp file (see `multitarget_rule`), so that's what needs to depend
+        # on the directories we searched.
+        target = make.filepath
+        if build_inputs['regenerate'].outputs:
+            target = target.addext('.stamp')
+        write_depfile(env, Path(depfile_name), target,
                       build_inputs['find_dirs'], makeify=True)
         buildfile.include(depfile_name)
 
